@@ -7,7 +7,7 @@ def nontrivial(cmd, inp, impl, prev):
 PROP = dict(
     family="c02", session_start=None, trivial=nontrivial,
     n=dict(quick=12000, thorough=400000),
-    exhaustive=dict(quick=True, thorough=True),
+    exhaustive=dict(quick=False, thorough=False),  # kernels are swept exhaustively, the message generator is sampled: the run as a whole is not an enumeration
     rule="records din.lines = one call of RawPanelASCIIstringsToInboundMessages on 1-12 lines generated from the grammar "
          "(canonical and alternative spellings: text lines with any prefix/subset of the 21 fields, colour values with/"
          "without readability bit, one/two-argument brightness, simple three-line and advanced graphics with chunk size "
